@@ -320,7 +320,14 @@ func dateParse(date string) float64 {
 		return math.NaN()
 	}
 
-	epoch := float64(time.AddDate(yearShift, 0, 0).UnixMilli())
+	// The instant is fixed once the text is parsed; shifting the year must not
+	// re-read the wall clock in the host's time zone (time.Parse returns a
+	// local time when the offset happens to be the local one).
+	time = time.UTC()
+	if yearShift != 0 {
+		time = time.AddDate(yearShift, 0, 0)
+	}
+	epoch := float64(time.UnixMilli())
 	if math.Abs(epoch) > 8.64e15 {
 		return math.NaN()
 	}
